@@ -207,18 +207,21 @@ class CFG:
             stack.extend(self.g.successors(n))
         return False
 
-    def path(self, a, b, avoid=()):
-        """one witness path a -> b avoiding `avoid` (list of nodes) or None."""
+    def path(self, a, b, avoid=(), avoid_edges=()):
+        """one witness path a -> b avoiding `avoid` (list of nodes) and `avoid_edges` or None."""
         avoid = set(avoid) - {a, b}
         h = self.g.subgraph([n for n in self.g.nodes if n not in avoid])
+        if avoid_edges:
+            h = nx.DiGraph(h)
+            h.remove_edges_from([e for e in avoid_edges if h.has_edge(*e)])
         try:
             return nx.shortest_path(h, a, b)
         except (nx.NetworkXNoPath, nx.NodeNotFound):
             return None
 
-    def must_pass(self, src, dst, through):
+    def must_pass(self, src, dst, through, infeasible_edges=()):
         """every path src -> dst passes a node in `through`; returns (bool, witness path)."""
-        p = self.path(src, dst, avoid=through)
+        p = self.path(src, dst, avoid=through, avoid_edges=infeasible_edges)
         return (p is None), p
 
     def all_before(self, a_nodes, b):
